@@ -68,7 +68,8 @@ CLAIMED["C15"] = (
     "definitions, callee summaries, type-based struct-field registry) with dominating-guard discharge: R-ALLOC, R-GUARD, R-PANIC, "
     "R-DIV (zero-test before an untrusted divisor), R-ARITH.mul (unchecked multiplication feeding a bound check, through helpers); "
     "CFG cut rule for variable-length integer decoders (R-TRUNC); divisors read from zero-writable fields (R-DIV field form); "
-    "call-graph cycle rule with depth-budget recognition (R-RECURSE); who-may-call rule on assume_init of uninitialised non-MaybeUninit types (R-UNINIT)",
+    "call-graph cycle rule with depth-budget recognition (R-RECURSE); who-may-call rule on assume_init of uninitialised non-MaybeUninit types (R-UNINIT); "
+    "narrow Iterator::sum over decoder-supplied tables in the call-graph closure of the entry points (R-ARITH.sum); byte-offset str slices (R-STRSLICE)",
     "static rule over the closure of ~200 parser entry points: every allocation size, bounds-checked index, slice range, "
     "unsafe pointer/length operand and unwrap that derives from untrusted bytes must be dominated by a deciding comparison "
     "against a trusted bound (refusing on the large side), clamped by a trusted value, or narrow by type",
@@ -79,7 +80,7 @@ CLAIMED["C19"] = (
     "MIR must-precede / must-pass-through analysis over resolved callees (R-ORDER), open-time size-guard rule (R-GUARD.open) "
     "and the taint analysis with header fields as untrusted integers (incl. R-ARITH.mul); CFG cut rule for var_uint readers (R-TRUNC); "
     "who-may-call rule on Drop for MmapVec (R-ORDER.drop); continuation threshold of the var_uint writer (R-VARINT.threshold); "
-    "length check after take(n).read_to_end (R-TAKEEXACT); truncation of freshly created backing files (R-CREATE.truncate)",
+    "length check after take(n).read_to_end (R-TAKEEXACT); truncation of freshly created backing files (R-CREATE.truncate); partial flush followed by clear (R-FLUSHWHOLE)",
     "static rules: growth persists capacity only after File::set_len and remap; writers sync before returning Ok; "
     "MmapVec::open compares the header's capacity with the file length before Ok; loaders never size or index from header "
     "fields unchecked",
@@ -90,7 +91,7 @@ CLAIMED["C13"] = (
     "MIR layout-event agreement between writers and readers (R-PAIR, strong projection), per-marker arm agreement for constant "
     "one-byte presence/kind markers (R-PAIR.marker), inverse dispatch tables (R-VARIANT.inverse) and flush-before-seek ordering of the "
     "buffering writer (R-ORDER); continuation threshold of LEB128 writers (R-VARINT.threshold); interprocedural "
-    "use-of-count rule for partial writes (R-PARTIALWRITE); clamped-count provenance of element loops (R-CLAMPLOOP)",
+    "use-of-count rule for partial writes (R-PARTIALWRITE); clamped-count provenance of element loops (R-CLAMPLOOP); chunks_exact tail handling in bulk conversions (R-REMAINDER)",
     "static rules over MIR: every DataOutput::write_K x DataInput::read_K implementor pair and every serialize/deserialize "
     "pair of the io files must produce the same sequence of multi-byte integer widths+endianness, primitive kinds and nested "
     "(de)serialisations; each VarIntStrategy variant must decode with the helper family it encodes with",
